@@ -175,6 +175,12 @@ impl SortPreservingMergeExec {
 
         let mut eq_properties = input.equivalence_properties().clone();
         eq_properties.clear_per_partition_constants();
+        // The orderings of the input hold within each input partition. Merging
+        // several partitions on `ordering` only preserves `ordering` (and what
+        // it implies), not the other orderings the input may declare.
+        if input_partitions > 1 {
+            eq_properties.clear_orderings();
+        }
         eq_properties.add_ordering(ordering);
         PlanProperties::new(
             eq_properties,                        // Equivalence Properties
